@@ -49,6 +49,7 @@ pub fn generator(prop: &str) -> Option<Gen> {
         "C05" => Some(gen::gen_c05),
         "C06" => Some(gen::gen_c06),
         "C02" => Some(gen::gen_c02),
+        "C04" => Some(gen::gen_c04),
         _ => None,
     }
 }
@@ -62,6 +63,7 @@ pub fn budget(prop: &str, tier: &str) -> u64 {
         "C05" => 300,
         "C06" => 300,
         "C02" => 300,
+        "C04" => 900,
         "C14" => 3 * 6 * 155 + 200,
         _ => 150,
     };
